@@ -58,6 +58,8 @@ type FilterEvent struct {
 }
 
 type Call struct {
+	// PostFail: a PostRequest filter is to fail for this call (cfg postfail=1); PostFailed: it did
+	PostFail, PostFailed bool
 	// an intermediary put a (possibly contradicting) X-RestLi-Method header on a request to a simple resource
 	liedHeader bool
 	// per-key error objects a keyed batch reply carries, with a copy taken when they were made (C08: error objects
@@ -105,6 +107,20 @@ func (c *Call) setView(v string) { c.View = v }
 
 //go:norace
 func (c *Call) addFilt(f FilterEvent) { c.Filt = append(c.Filt, f) }
+
+// takePostFail: is this call's PostRequest to fail now? (once per call)
+//
+//go:norace
+func (c *Call) takePostFail() bool {
+	if c.PostFail && !c.PostFailed {
+		c.PostFailed = true
+		return true
+	}
+	return false
+}
+
+//go:norace
+func (c *Call) postFailed() bool { return c.PostFailed }
 
 var errorType = reflect.TypeOf((*error)(nil)).Elem()
 
